@@ -71,6 +71,9 @@ func init() {
 			"<%= if (t) { %>[a<%# a note %>b<%= n %>]<% } %>", "<%= for (x) in [1, 2, 3] { %><%# first %>a<%= x %><%# second %>b<% } %>", "<% let f = fn(v) { %><%# c %>(<%= v %>)<% } %><%= f(1) %><%= f(2) %>",
 			"<%= blk2() { %>x<%# c %>y<%= n %><% } %>", "<% contentFor(\"cc\") { %><%# c %>[<%= n %>]<%# d %>.<% } %><%= contentOf(\"cc\") %><%= contentOf(\"cc\", {n: 9}) %>",
 			"<%= if (false) { %>no<% } else { %><%# c %>e<%= n %><%# d %><% } %>|<%= for (x) in [1, 2] { %><%= if (t) { %><%# c %>i<%= x %><% } %><% } %>",
+			// templates that do not parse and record SEVERAL syntax errors, some of them with the same text: the
+			// error of a template is as much a function of its text as its output is
+			"<%= f([1, g(2 %>", "<%= f(g(h([1, {a: k(2 %>", "<% if (true) { %><%= f([1, g(2 %>", "<%= f(1 %><%= g([2 %><%= h(3 %><%= k([4 %>", "<% let = 1 %><% let = 2 %><%= (1 + %><% let = 3 %>",
 			// partials that include themselves (one text executing while another execution of the same text is pending)
 			`<%= partial("tree", {n: 3}) %>`, `<%= partial("tree", {n: 2}) %>|<%= partial("tree", {n: 1}) %>`, `<%= partial("ping", {n: 4}) %>`,
 		)
@@ -116,7 +119,40 @@ func init() {
 		for ti, src := range tmpls {
 			c := RCase{Tmpl: src, Binds: append(stdBinds(), Bind{"optlen", vGo(111)}), Parts: stdParts}
 			o := e.addRenderCase("model", c)
-			if o.Class == "PARSEERR" || o.Class == "PANIC" || o.Class == "HANG" {
+			if o.Class == "PARSEERR" {
+				// a template that does not parse: its error (every line of it) is the same for every parse,
+				// whichever entry point parses it and whatever the cache holds
+				first, firstLabel := "", ""
+				for _, cache := range []bool{false, true} {
+					plush.CacheEnabled = cache
+					for r := 0; r < 2*reps; r++ {
+						for label, f := range map[string]func() error{
+							"Render": func() error { _, err := plush.Render(src, plush.NewContext()); return err },
+							"NewTemplate": func() error { _, err := plush.NewTemplate(src); return err },
+							"Parse": func() error { _, err := plush.Parse(src); return err },
+							"literal-Exec": func() error { _, err := (&plush.Template{Input: src}).Exec(plush.NewContext()); return err },
+						} {
+							err := f()
+							got := "<nil>"
+							if err != nil {
+								got = err.Error()
+							}
+							e.rep.Evaluations++
+							if first == "" {
+								first, firstLabel = got, label
+							} else if got != first {
+								e.Violate("c13-nondeterministic", fmt.Sprintf("%q does not parse: %s reported %q but %s (cache %v, repetition %d) reported %q", src, firstLabel, first, label, cache, r, got), map[string]interface{}{"tmpl": src})
+								r = 2 * reps
+								break
+							}
+						}
+					}
+				}
+				plush.CacheEnabled = false
+				e.Distinct(src)
+				continue
+			}
+			if o.Class == "PANIC" || o.Class == "HANG" {
 				continue
 			}
 			e.Distinct(src)
